@@ -113,6 +113,33 @@ fn ensure_data(force: bool) {
             std::fs::copy(format!("{r}/data/{f}"), format!("{d}/{f}")).expect("copy data");
         }
     }
+    // a second system directory: the same dictionaries, other symbol / abbreviation tables (lines in reverse order,
+    // so every category and every abbreviation key is still there but menus and first entries differ)
+    let alt = format!("{d}/alt");
+    std::fs::create_dir_all(&alt).expect("mkdir alt");
+    for f in ["word.dat", "tsi.dat"] {
+        if force || !std::path::Path::new(&format!("{alt}/{f}")).exists() {
+            std::fs::copy(format!("{d}/{f}"), format!("{alt}/{f}")).expect("copy dictionary");
+        }
+    }
+    if force || !std::path::Path::new(&format!("{alt}/symbols.dat")).exists() {
+        let txt = std::fs::read_to_string(format!("{r}/data/symbols.dat")).expect("symbols.dat");
+        let mut lines: Vec<&str> = txt.lines().collect();
+        lines.reverse();
+        std::fs::write(format!("{alt}/symbols.dat"), lines.join("\n") + "\n").expect("alt symbols.dat");
+    }
+    if force || !std::path::Path::new(&format!("{alt}/swkb.dat")).exists() {
+        let txt = std::fs::read_to_string(format!("{r}/data/swkb.dat")).expect("swkb.dat");
+        // every key keeps an expansion, but its neighbour's
+        let lines: Vec<&str> = txt.lines().filter(|l| !l.trim().is_empty()).collect();
+        let mut out = String::new();
+        for (i, l) in lines.iter().enumerate() {
+            let key = l.split_whitespace().next().unwrap_or("");
+            let val = lines[(i + 1) % lines.len()].split_whitespace().nth(1).unwrap_or("x");
+            out.push_str(&format!("{} {}\n", key, val));
+        }
+        std::fs::write(format!("{alt}/swkb.dat"), out).expect("alt swkb.dat");
+    }
 }
 
 // ------------------------------------------------------------------------------------ worker
@@ -278,8 +305,8 @@ unsafe fn getter(c: *mut ChewingContext, g: usize) -> String {
 
 unsafe fn exec(ctxs: &mut HashMap<String, Ctx>, sys: &str, words: &[&str]) -> String {
     let id = words[0];
-    if words[1] == "new" {
-        let s = CString::new(sys).unwrap();
+    if words[1] == "new" || words[1] == "newalt" {
+        let s = CString::new(if words[1] == "newalt" { format!("{sys}/alt") } else { sys.to_string() }).unwrap();
         let u = CString::new(":memory:").unwrap();
         let p = unsafe { chewing_new2(s.as_ptr(), u.as_ptr(), None, null_mut()) };
         if p.is_null() {
@@ -905,6 +932,55 @@ fn check_case(sup: &mut Sup, rng: &mut Rng, n: usize, tier: &str, stats: &mut St
         return;
     }
     compare("other-context", &iso, &ans_iso, fails);
+
+    // ---- alt: in a FRESH worker process another context over another system directory (other symbol and
+    //      abbreviation tables) is created first and used; then A runs its history followed by the symbol menu and
+    //      an easy-symbol key.  A's answers must be those of the same script in a process that never saw the other
+    //      system directory (process-wide caches couple contexts)
+    if n % 2 == 1 {
+        let tail: Vec<String> = ["api reset", "seti chewing.language_mode 1", "key 96", "obs all", "key 51", "obs all", "key 50", "obs all", "h Esc", "h Esc",
+                                 "seti chewing.easy_symbol_input 1", "key 65", "key 76", "obs all", "h Enter", "obs all"]
+            .iter()
+            .map(|o| format!("A {}", o))
+            .collect();
+        let mut own = vec!["A new".to_string()];
+        own.extend(a_ops.iter().cloned());
+        own.extend(tail.iter().cloned());
+        own.push("A del".into());
+        let own = single(own);
+        let ans_own = run_script(sup, &own);
+        stats.variants += 1;
+        if crash_check("alt-alone", &own, &ans_own, stats, fails) {
+            return;
+        }
+        sup.kill();
+        let mut alt = vec!["B newalt".to_string(), "B key 96".to_string(), "B key 49".to_string(), "B obs all".to_string(), "B h Esc".to_string()];
+        alt.extend(b_ops.iter().take(12).cloned());
+        alt.push("A new".into());
+        alt.extend(a_ops.iter().cloned());
+        alt.extend(tail.iter().cloned());
+        alt.push("A del".into());
+        alt.push("B del".into());
+        let alt = single(alt);
+        let ans_alt = run_script(sup, &alt);
+        sup.kill();
+        stats.variants += 1;
+        if crash_check("alt", &alt, &ans_alt, stats, fails) {
+            return;
+        }
+        let of_a = |script: &[Vec<String>], ans: &[Ans]| -> Vec<(String, String)> {
+            script.iter().zip(ans.iter()).filter(|(b, _)| b[0].starts_with("A ")).map(|(b, a)| (b[0].clone(), match a { Ans::Line(l) => l.clone(), x => format!("{:?}", x) })).collect()
+        };
+        let (x, y) = (of_a(&own, &ans_own), of_a(&alt, &ans_alt));
+        if let Some(k) = x.iter().zip(y.iter()).position(|(a, b)| a != b) {
+            fails.push(Failure {
+                signature: "other-context-changes-results".into(),
+                detail: format!("case {}: after a context over another system directory was used in the same process, `{}` answers {} but {} in a process of its own",
+                                n, x[k].0, y[k].1.chars().take(700).collect::<String>(), x[k].1.chars().take(700).collect::<String>()),
+                ops: alt.iter().flatten().cloned().collect(),
+            });
+        }
+    }
 
     // ---- thr: the other context driven from a second thread at the same time
     if n % 3 == 0 {
